@@ -174,6 +174,59 @@ def _pure_unit(item) -> Partial:
     return p
 
 
+POOL = "ABCD"
+
+
+def _member_lists() -> list[str]:
+    """every non-empty subset of <= 3 of the 4 pool runners, in creation order."""
+    import itertools
+
+    return ["".join(c) for k in (1, 2, 3) for c in itertools.combinations(POOL, k)]
+
+
+def _member_series(members: str, interval_min: float, margin_min: float, grid: int):
+    from pynenc.orchestrator.atomic_service import ActiveRunnerInfo, can_run_atomic_service
+
+    rs = []
+    for m in members:
+        t = datetime.fromtimestamp(1000.0 + POOL.index(m), tz=UTC)
+        rs.append(ActiveRunnerInfo(f"r{m}", t, t, True))
+    n = len(members)
+    series = []
+    for t in _instants(n, interval_min * 60, margin_min * 60, grid, 1, 0.0):
+        auth = tuple(k for k, m in enumerate(members) if can_run_atomic_service(f"r{m}", rs, t, interval_min, margin_min))
+        series.append((t, auth))
+    return series
+
+
+def _member_unit(item) -> Partial:
+    """Membership changes: the active set changes from one list to another (runners die, join, or both at once, so
+    that survivors change position with or without a change of the count); every runner of the first list has asked
+    during a whole cycle before the change, then the oracle is applied to a whole cycle under the second list."""
+    interval_min, margin_min, grid = item
+    p = Partial()
+    lists = _member_lists()
+    for first in lists:
+        for second in lists:
+            if first == second:
+                continue
+            _member_series(first, interval_min, margin_min, grid)
+            series = _member_series(second, interval_min, margin_min, grid)
+            n = len(second)
+            cfg = dict(n=n, interval_min=interval_min, margin_min=margin_min, members_before=first, members_after=second)
+            q = Partial()
+            _check_series(q, cfg, series, n, interval_min * 60, margin_min * 60, 1, 0.0)
+            for v in q.violations:
+                v["signature"]["after"] = "membership-change"
+                v["replay"]["kind"] = "membership"
+            p.merge(q)
+            p.count("states")
+            p.count("membership_changes")
+            p.count("evaluations", n * len(series))
+            p.add("distinct_outcomes", ("m", n, tuple(sorted({a for _, a in series}))))
+    return p
+
+
 def _orch_unit(item) -> Partial:
     """Same oracle through should_run_atomic_service of a real orchestrator (virtual clock)."""
     backend, n, interval_min, margin_min = item[:4]
@@ -292,6 +345,9 @@ def run(ctx: Ctx) -> None:
     items = items[rot:] + items[:rot]
     for part in par.pmap(_pure_unit, items):
         ctx.merge(part)
+    for part in par.pmap(_member_unit, [(i, m, 300 if ctx.thorough else 60)
+                                        for i, m in ((1.0, 0.0), (1.0, 0.1), (6.0, 0.5), (1.0, 1.0))]):
+        ctx.merge(part)
     oitems = [
         (b, n, i, m)
         for b in env.BACKENDS
@@ -307,7 +363,8 @@ def run(ctx: Ctx) -> None:
         "every (runner count, cycle length, margin, epoch offset) configuration x every instant of a "
         "dense grid plus all slot boundaries +-{0,1ulp,1ms}; all runners asked at the same instant; "
         "states = configurations, transitions = instants, evaluations = can_run_atomic_service calls; also through both "
-        "orchestrators' should_run_atomic_service and through the runners' own loop steps (heartbeat report + atomic-service check)"
+        "orchestrators' should_run_atomic_service, after every change of the active set from one to another of the 14 "
+        "subsets (<= 3) of 4 runners (a cycle of questions under the first, the oracle over a cycle under the second), and through the runners' own loop steps (heartbeat report + atomic-service check)"
     )
     ctx.extra["traces_validated_against_impl"] = ctx.counters.get("transitions", 0)
     ctx.extra["runner_counts"] = f"1..{nmax}" + ("" if ctx.thorough else " (+ 9..16 with margin 0 at the slot boundaries)")
@@ -320,6 +377,12 @@ def replay(payload: dict) -> bool:
     from pynenc.orchestrator.atomic_service import can_run_atomic_service
 
     r = payload["replay"]
+    if r.get("kind") == "membership":
+        p = Partial()
+        _member_series(r["members_before"], r["interval_min"], r["margin_min"], 60)
+        series = _member_series(r["members_after"], r["interval_min"], r["margin_min"], 60)
+        _check_series(p, r, series, r["n"], r["interval_min"] * 60, r["margin_min"] * 60, 1, 0.0)
+        return bool(p.violations)
     if r.get("kind") != "pure":
         return False
     n = r["n"]
